@@ -1,6 +1,7 @@
 """Verify one function against its contract: build symbolic parameters, run the
 real body, emit post / raises / frame / freshness / cover obligations."""
 import ast
+import os
 import z3
 from .values import *   # noqa: F401,F403
 from .engine import State, Exec, PyRaise
@@ -445,13 +446,20 @@ def apply_hints(ex, contract, where, loc, s):
         if at != where:
             continue
         for a in cl.args:
+            s.heap.update({k2: v2 for k2, v2 in loc.heap.items() if k2 not in s.heap})      # cells of let-bound values
             h = State(dict(s.env), s.heap, s.ver, s.pc, s.ghost)
             if 'result' in loc.env:
                 h.env['result'] = loc.env['result']
+            for lcl in contract.of('let'):       # names bound by let(...) of the contract (do not shadow locals of the function)
+                for k2 in lcl.kw:
+                    if k2 in loc.env and k2 not in h.env:
+                        h.env[k2] = loc.env[k2]
             try:
                 f = ex.truth(ex.evs(a, h), h)
             except Unsupported as u:
                 if 'unbound name' in str(u):
+                    if os.environ.get('VK_DEBUG_HINTS'):
+                        print('hint skipped:', u, ast.unparse(a)[:80])
                     continue
                 raise
             s.pc[:] = h.pc
